@@ -110,7 +110,7 @@ theorem readTail_sim {sh : Shim} {w : World} {a : Abs} (c : Core) (bytes : Int) 
   obtain ⟨c1, c2, c3, c4⟩ := hc
   have hdiv : 0 ≤ cdiv (absStep a (.read 1 bytes)).1.1 (if c.blockwidth > 0 then c.blockwidth else 1) := by
     unfold cdiv; apply Int.tdiv_nonneg hnn; split <;> omega
-  by_cases hle : c.rcur + cdiv (absStep a (.read 1 bytes)).1.1 (if c.blockwidth > 0 then c.blockwidth else 1) ≤ c.frames
+  by_cases hle : (absStep a (.read 1 bytes)).1.1 ≤ (c.frames - c.rcur) * (if c.blockwidth > 0 then c.blockwidth else 1)
   · simp only [hle, if_true]
     exact ⟨(by first | rfl | trivial | simp), (by first | rfl | trivial | simp), (by first | rfl | trivial | simp), (by first | rfl | trivial | simp), e2, e3, c1, c2, by simp only; omega, c4⟩
   · simp only [hle, if_false]
@@ -238,6 +238,27 @@ theorem session_end_to_end (w : World) (fd : Nat) (cd : Bool) (major : Nat) (c :
   have hnd2 : (gRun concStep c ((openFd w fd .r cd major).sh, (openFd w fd .r cd major).w) ops).2.2.2.openFds.Nodup := by rw [hfds]; exact hnd
   rw [close_desc_iff _ _ d hnd2, hfds, r3.1, r3.2.2.1, r3.2.2.2.2.2.2, o3, o5, o6]
   cases cd <;> simp <;> omega
+
+/-! ## the sf_read_raw clamp before d9097b4 -/
+
+/-- 16-bit mono, two frames of audio followed by one more byte (a pad byte, the first byte of a trailing chunk): a request
+    past the last frame returned 5 bytes — not a whole number of frames, the fifth from beyond the audio data — under the
+    old rule; the repaired rule returns the 4 bytes of the two frames -/
+theorem read_raw_clamp_old_rule :
+    (gReadTailOld absStepper { dataoffset := 0, blockwidth := 2, align := 2, frames := 2 } ⟨[1, 2, 3, 4, 9], 0⟩ 6).ret = 5 ∧
+    (gReadTailOld absStepper { dataoffset := 0, blockwidth := 2, align := 2, frames := 2 } ⟨[1, 2, 3, 4, 9], 0⟩ 6).data = [1, 2, 3, 4, 9] ∧
+    (gReadTail absStepper { dataoffset := 0, blockwidth := 2, align := 2, frames := 2 } ⟨[1, 2, 3, 4, 9], 0⟩ 6).ret = 4 ∧
+    (gReadTail absStepper { dataoffset := 0, blockwidth := 2, align := 2, frames := 2 } ⟨[1, 2, 3, 4, 9], 0⟩ 6).data = [1, 2, 3, 4] := by decide
+
+/-- the repaired rule never returns more than the audio that is left, on any route -/
+theorem read_raw_within_audio {σ : Type} (st : Stepper σ) (c : Core) (s : σ) (bytes : Int) :
+    (gReadTail st c s bytes).ret ≤ (c.frames - c.rcur) * (if c.blockwidth > 0 then c.blockwidth else 1) := by
+  unfold gReadTail
+  dsimp only
+  generalize (if c.blockwidth > 0 then c.blockwidth else 1) = bw
+  by_cases h : (st s (.read 1 bytes)).1.1 ≤ (c.frames - c.rcur) * bw
+  · simp only [h, if_true]
+  · simp only [h, if_false]; exact Int.le_refl _
 
 /-! ## non-vacuity -/
 
